@@ -16,6 +16,8 @@ Definition catalogue : list (string * cover) := [
      ByLemma ["intern_content"; "run_got_content"; "par_set_union"]);
   ("src/names.rs|SeqNameList::get|impl SeqNameList { pub(crate) fn get(&self, name: &Name) -> Name { let existing = self.0.borrow().get(name).cloned(); match existing { Some(name) => name, None => { self.0.borrow_mut().insert(name.clone()); name.clone() } } } pub(crate) fn contains(&self, key: impl AsRef<str>) -> bool { self.0.borrow().contains(key.as_ref()) } }",
      ByLemma ["gets_seq_content"; "seq_font_set"]);
+  ("src/layer.rs|Layer::load_impl/file name check|let mut seen_files = HashSet::new(); for (name, path) in &contents { let Some(file_name) = plain_name(path) else { return Err(LayerLoadError::InvalidGlyphFileName { name: name.to_string(), path: path.clone(), }); }; if !seen_files.insert(file_name) { return Err(LayerLoadError::DuplicateGlyphFileName(path.clone())); } }",
+     ByLemma ["files_ok_nodup"; "loaded_layer_paths_distinct"; "par_layer_spec"]);
   ("src/layer.rs|Layer::load_impl/parallel map|let glyphs = iter .map(|(name, glyph_path)| { let name = names.get(name); let glyph_path = path.join(glyph_path); Glyph::load_with_names(&glyph_path, names) .map_err(|source| LayerLoadError::Glyph { name: name.to_string(), path: glyph_path, source, }) .map(|mut glyph| { glyph.name = name.clone(); (name, glyph) }) }) .collect::<Result<_, _>>()?;",
      ByLemma ["par_layer_spec"; "par_layer_ok_iff"; "run_done_perm"; "fold_ins_perm"]);
   ("src/layer.rs|Layer::save_with_options/parallel for_each|iter.try_for_each(|(name, glyph_path)| { let glyph = self.glyphs.get(name).expect(""all glyphs in contents must exist.""); let glyph_path = path.join(glyph_path); glyph.save_with_options(&glyph_path, opts).map_err(|source| LayerWriteError::Glyph { name: glyph.name.to_string(), path: glyph_path, source, }) }) }",
@@ -60,8 +62,10 @@ Definition catalogue : list (string * cover) := [
      ByLemma ["par_font_spec"; "par_font_set"]);
   ("src/font.rs|impl Font::fn load_impl|let layers = load_layer_set(path, &meta, &glyph_names, &request.layers)?;",
      ByLemma ["par_font_spec"; "par_font_set"]);
-  ("src/font.rs|impl Font::fn load_impl|upconversion::upconvert_kerning(&g, &k.unwrap_or_default(), &glyph_names);",
-     ByLemma ["par_font_set"; "seq_font_set"]);
+  ("src/font.rs|impl Font::fn load_impl|let glyph_set: NameList = layers",
+     NotShared "since 090c163 upconversion is given a fresh NameList built sequentially from the loaded glyph names, not the shared interner");
+  ("src/font.rs|impl Font::fn load_impl|upconversion::upconvert_kerning(&g, &k.unwrap_or_default(), &glyph_set);",
+     NotShared "since 090c163 upconversion is given a fresh NameList built sequentially from the loaded glyph names, not the shared interner");
   ("src/font.rs|<top>|glyph_names: &NameList,",
      ByLemma ["par_font_spec"; "par_font_set"]);
   ("src/font.rs|fn load_layer_set|LayerContents::load(ufo_path, glyph_names, filter)",
@@ -153,19 +157,19 @@ Definition catalogue : list (string * cover) := [
   ("src/names.rs|impl Default for ParNameList::fn default|ParNameList(RwLock::new(HashSet::new()))",
      ByLemma ["intern_content"; "run_got_content"; "par_set_union"]);
   ("src/names.rs|<top>|impl<T: Into<Name>> std::iter::FromIterator<T> for NameList {",
-     NotShared "NameList::from_iter is used by tests only, single-threaded");
+     NotShared "NameList::from_iter: sequential construction (tests; since 090c163 the glyph set handed to kerning upconversion)");
   ("src/names.rs|impl > std::iter::FromIterator<T> for NameList::fn from_iter|let names = NameList::default();",
-     NotShared "NameList::from_iter is used by tests only, single-threaded");
+     NotShared "NameList::from_iter: sequential construction (tests; since 090c163 the glyph set handed to kerning upconversion)");
   ("src/names.rs|impl > std::iter::FromIterator<T> for NameList::fn from_iter|names.get(&i.into());",
-     NotShared "NameList::from_iter is used by tests only, single-threaded");
+     NotShared "NameList::from_iter: sequential construction (tests; since 090c163 the glyph set handed to kerning upconversion)");
   ("src/upconversion.rs|<top>|use crate::names::NameList;",
-     ByLemma ["par_font_set"; "seq_font_set"]);
+     NotShared "since 090c163 upconversion is given a fresh NameList built sequentially from the loaded glyph names, not the shared interner");
   ("src/upconversion.rs|<top>|glyph_set: &NameList,",
-     ByLemma ["par_font_set"; "seq_font_set"]);
+     NotShared "since 090c163 upconversion is given a fresh NameList built sequentially from the loaded glyph names, not the shared interner");
   ("src/upconversion.rs|fn upconvert_kerning|&& !glyph_set.contains(first)",
-     ByLemma ["par_font_set"; "seq_font_set"]);
+     NotShared "since 090c163 upconversion is given a fresh NameList built sequentially from the loaded glyph names, not the shared interner");
   ("src/upconversion.rs|fn upconvert_kerning|&& !glyph_set.contains(second)",
-     ByLemma ["par_font_set"; "seq_font_set"]);
+     NotShared "since 090c163 upconversion is given a fresh NameList built sequentially from the loaded glyph names, not the shared interner");
   ("src/glyph/mod.rs|<top>|use crate::names::NameList;",
      NotShared "a private NameList per call (Glyph::load, Glyph::parse_raw): single-threaded");
   ("src/glyph/mod.rs|impl Glyph::fn load|let names = NameList::default();",
